@@ -8,6 +8,31 @@
   * `flattenF_some_list_free`, `flattenKvs_some_list_free`   a defined flattening sees no list cell
   * `putH_cont_some_list_free`   `putH … v = some _` with `v` a container ⇒ nothing below `v` is a list
   * `putH_cont_list_none`        contrapositive: a list below a container value ⇒ `putH … = none`
+
+  WHAT AN EXTENSION OF THE MODEL NEEDS (the definitions under YtkModel are not changed here; read off
+  /repo/dom/overlay.go `Put` / `ensurePath` and /repo/dom/container.go `flattenList` / `ensureList` / `add`):
+
+  1. `flattenF` needs the case `some (.list xs)`: `flattenList` names item `i` by appending the index
+     group to the LAST path component (`fmt.Sprintf("%s[%d]", path, i)` = `toListPath`), i.e. entry paths
+     `pre.dropLast ++ [toListPath pre.getLast i]`, recursing into containers (`… ++ [k]`) and lists
+     (`…[i][j]`) inside items; still the LEAF OBJECTS themselves are collected.
+  2. `putNodeH` must store with `Ytk.Heap.addH` (YtkModel/HeapBuilder.lean: `containerBuilderImpl.add` =
+     `parseSeg` + `setSlotH`, i.e. `ensureList` + `list.Set`) instead of the plain-key `Heap.addValue`:
+     the last component of a flattened entry is `k[i]…[j]` whenever the leaf sits in a list.
+  3. `ensurePathH` needs the branch of overlay.go's `ensurePath` for a component with an index group
+     (`listPathRe`): `ensureList(component, node)` (reuse / create the lists, pad with the shared nilLeaf),
+     then a POINTER comparison of the slot with `nilLeaf`: if it is the nil leaf, a NEW container is stored
+     in the slot (`list.Set(index, c)`) and entered — together exactly `HeapBuilder.addContainerH h node
+     component`, to be taken when `childH h node component` is `none` or `some nilAddr`; otherwise
+     `node.Child(component)` (= `childH`) must be a container cell, which is entered without a write
+     (anything else: the Go type assertion panics = `none`).  The comparison is by address: an OWN
+     nil-valued leaf in the slot is not `nilLeaf` and leads to the panic.
+  4. theorems: `heap_put_shares` then needs a third kind of written cell (LIST cells of the layer: the
+     reused / new lists of `setSlotH`; `Upd` / `WC` in YtkProofs/HeapOverlay.lean speak of container cells
+     only) and the clause "of a container value only LEAF cells are stored" stays true (no list object of
+     the value is stored: the layer gets NEW lists, padded with the shared nil leaf, which already is
+     alternative (4) of `heap_put_shares`); `heap_layers_isolated` is unaffected once the write set is
+     generalised (`AttachSpec` of `addH`, YtkProofs/HeapBuilder.lean `addH_spec`, gives it).
 -/
 import YtkProofs.HeapOverlay
 
